@@ -5,6 +5,7 @@ import ast
 
 from ..cfg import CFG
 from ..effects import EffectAnalysis
+from ..absint import TOP, Const, Domain, Interp, ListOf, Tup
 from ..repo import calls_in, dotted, norm_src, walk_no_nested
 from ..match import Matcher, src as msrc
 from .common import kwarg, need_funcs
@@ -23,6 +24,59 @@ OWNERS = {
     "_pos": {"__init__", "translate", "append"},
     "_rotator": {"__init__", "rotate_by", "append"},
 }
+
+
+class _ConcatDom(Domain):
+    """Provenance of what Molecules.concat hands to the constructor: per-input field lists concatenated in input order."""
+    name = "CAT"
+
+    def __init__(self):
+        self.ctor = []
+
+    def const(self, interp, value, node):
+        return Const(value)
+
+    def seed_param(self, interp, fn, arg):
+        if arg.arg == "moles":
+            return ListOf(("elem",))
+        if arg.arg == "cls":
+            return ("cls",)
+        return TOP
+
+    def elem(self, interp, val, node):
+        return NotImplemented
+
+    def attr(self, interp, val, name, node):
+        if val == ("elem",) and name in ("pos", "_pos"):
+            return ("f", "pos")
+        if val == ("elem",) and name in ("features", "_features"):
+            return ("f", "feat")
+        return NotImplemented
+
+    def call_external(self, interp, name, recv, args, kwargs, node):
+        last = (name or "").rsplit(".", 1)[-1]
+        if recv == ("elem",) and last == "quaternion":
+            return ("f", "quat")
+        if last == "concatenate" and args and isinstance(args[0], ListOf) and isinstance(args[0].elem, tuple) and args[0].elem[:1] == ("f",):
+            ax = kwargs.get("axis")
+            return ("cat", args[0].elem[1]) if isinstance(ax, Const) and ax.value == 0 else TOP
+        if last == "concat" and args and isinstance(args[0], ListOf) and isinstance(args[0].elem, tuple) and args[0].elem[:1] == ("f",):
+            return ("cat", args[0].elem[1])
+        if last == "Rotation" and args:
+            return ("rot", args[0])
+        return TOP
+
+    def call_value(self, interp, callee, args, kwargs, node):
+        return NotImplemented
+
+    def join(self, interp, a, b):
+        if a == b:
+            return a
+        if isinstance(a, Const) and a.value is None:
+            return b
+        if isinstance(b, Const) and b.value is None:
+            return a
+        return TOP
 
 
 def lockstep_clause(model, rep, funcs):
@@ -90,6 +144,29 @@ def lockstep_clause(model, rep, funcs):
         ok, why = M.all_of(["for $m in moles:\n    $pos.append($m.pos)\n    $quat.append($m.quaternion())\n    $feat.append($m.features)",
                             "$ap = np.concatenate($pos, axis=0)", "$aq = np.concatenate($quat, axis=0)", "$af = pl.concat($feat, how=$$how)",
                             "return cls($ap, Rotation($aq), features=$af)"])
+        if not ok:
+            # the same rule decided semantically: what reaches the constructor, whatever loop / comprehension builds the three lists
+            dom = _ConcatDom()
+            it_ = Interp(model, dom, depth=0)
+
+            def _oc(interp, fn, node, callee, args, kwargs, env, _d=dom):
+                nm_ = getattr(callee, "name", "") or ""
+                if isinstance(node.func, ast.Attribute) and node.func.attr in ("insert", "reverse", "sort", "appendleft", "pop", "remove") or nm_.endswith(("reversed", "sorted")):
+                    _d.ctor.append(("reordered", norm_src(node)))  # the abstraction of lists is order-blind: any re-ordering operation is not accepted
+                if type(callee).__name__ == "ClassRef" or callee == ("cls",):
+                    feat = kwargs.get("features", args[2] if len(args) > 2 else None)
+                    _d.ctor.append((args[0] if args else None, args[1] if len(args) > 1 else None, None if isinstance(feat, Const) and feat.value is None else feat))
+
+            it_.on_call.append(_oc)
+            it_.run(f)
+            for c_ in calls_in(f):  # list mutators are interpreted as statements, not calls: look for re-ordering operations in the source as well
+                if (isinstance(c_.func, ast.Attribute) and c_.func.attr in ("insert", "reverse", "sort", "appendleft", "pop", "remove")) or \
+                        (dotted(c_.func) or "") in ("reversed", "sorted"):
+                    dom.ctor.append(("reordered", norm_src(c_)))
+            if dom.ctor and all(c == (("cat", "pos"), ("rot", ("cat", "quat")), ("cat", "feat")) or c == (("cat", "pos"), ("rot", ("cat", "quat")), None) for c in dom.ctor):
+                ok, why = True, ""
+            elif dom.ctor:
+                why = f"the constructor receives {dom.ctor[0]!r}"
         rep.ob("LOCK", f.anchor, "concat collects position, quaternion and features of each input in one loop and concatenates the three lists in that order",
                ok, why, node=f.node, fn=f, clause="1 lock-step", stmt="def concat")
     for name in ("concat_with", "append"):
